@@ -75,36 +75,40 @@ def check_next_frame(run, cx, cfg):
                 bad = 'an output that has caught up must pull exactly one frame and append that frame to the backlog: [%s]' % describe_path(p)
                 break
             frame = ('ret', pulls[0][0])
-        # least-reader test: no *other* offset <= this offset
-        anys = [(k, e) for k, e in evs if is_call(e, ITER, 'any')]
+        # least-reader test: no *other* offset <= this offset.  Accepted idioms: !values().any(|o| o <= fr)  and  values().all(|o| o > fr)
+        # (both are true for a lone output, which must pop what it pushed).
+        anys = [(k, e) for k, e in evs if is_call(e, ITER, 'any') or is_call(e, ITER, 'all')]
         vals = [(k, e) for k, e in evs if rp(e) == BT + 'values' and e['args'][0] == ('ref', self_loc(fi))]
         if len(anys) != 1 or len(vals) != 1 or vals[0][0] < rem[0][0]:
-            bad = 'least-reader test must scan frames_read.values() after this output\'s own offset was removed'
+            bad = ('least-reader test must scan frames_read.values() with any/all after this output\'s own offset was removed (a lone output must count as the least reader, '
+                   'otherwise its backlog grows without bound)')
             break
+        is_all = anys[0][1]['name'] == 'all'
         clo = anys[0][1]['args'][1]
         if not (clo[0] == 'agg' and clo[1][0] == 'closure'):
             bad = 'least-reader predicate is not a closure'
             break
-        other = ('other',)
         cps = returning(cx.closure_paths(clo, p, [('ref', (('L', 'x', 0), ()))]))
         okc = False
         if len(cps) == 1:
             r = cps[0]['ret']
-            # *other <= frames_read
-            if r[0] == 'op' and r[1] in ('Le', 'Ge'):
-                a, b = (r[2], r[3]) if r[1] == 'Le' else (r[3], r[2])
-                a_is_other = a[0] in ('deref', 'uninit') or (a[0] == 'uninit')
+            want = ('Gt', 'Lt') if is_all else ('Le', 'Ge')      # all(other > fr)  |  any(other <= fr)
+            if r[0] == 'op' and r[1] in want:
+                a, b = (r[2], r[3]) if r[1] == want[0] else (r[3], r[2])
                 okc = (b == FR) and a != FR
         if not okc:
-            bad = 'least-reader predicate must be `other_frames_read <= frames_read` (two outputs tied at the front must not both pop): is %s' % (
+            bad = 'least-reader predicate must be `other_frames_read <= frames_read` under any() (or `>` under all()): two outputs tied at the front must not both pop; is %s' % (
                 short(cps[0]['ret']) if cps else '?')
             break
         least = None
         for c, v in cond_facts(p):
+            truth = None
             if c == ('ret', anys[0][0]) and v[0] == 'bool':
-                least = not v[1]
+                truth = v[1]
             if c == ('un', 'Not', ('ret', anys[0][0])) and v[0] == 'bool':
-                least = v[1]
+                truth = not v[1]
+            if truth is not None:
+                least = truth if is_all else (not truth)
         pops = [(k, e) for k, e in evs if rp(e) == VD + 'pop_front' and e['args'][0] == ('ref', self_loc(bi))]
         if least is None:
             bad = 'path not decided by the least-reader test'
